@@ -178,7 +178,9 @@ func c05(c *Ctx) {
 	}
 
 	// strings that are not numerals, booleans, cross-kind
-	words := []string{"", "a", "A", "ab", "a b", "é", "true", "x1"}
+	// ... including near-numerals: a numeral with a blank before or after it, with a separator, a second
+	// sign, a second point, a dangling exponent — none of them is a number
+	words := []string{"", "a", "A", "ab", "a b", "é", "true", "x1", " 1", "1 ", "1\t", "1 0", "1e", "1,000", "--1", "1.2.3", " 2.5 "}
 	for _, s := range words {
 		for _, t := range words {
 			doc := h.Obj("x", h.Str(s), "y", h.Str(t))
@@ -191,10 +193,16 @@ func c05(c *Ctx) {
 		}
 		// a string is never equal to a number or a bool
 		doc := h.Obj("x", h.Str(s), "n", h.FloatD(1), "b", h.Bool(true))
-		for _, arg := range []string{"1", "true", "$.n", "$.b"} {
+		for _, arg := range []string{"1", "true", "$.n", "$.b", "2.5", "1000", "10"} {
 			ec := c.AddEval("$.x.Equal("+arg+")", doc, "cross-kind", false, true)
 			ec.Check = boolCheck(false)
+			ec = c.AddEval("$.x.NotEqual("+arg+")", doc, "cross-kind", false, true)
+			ec.Check = boolCheck(true)
+			ec = c.AddEval("$.x.AnyOf("+arg+",3)", doc, "cross-kind", false, true)
+			ec.Check = boolCheck(false)
 		}
+		ec := c.AddEval("$.x.AnyOf(\"zz\","+qlit(s)+")", doc, "strings", false, true)
+		ec.Check = boolCheck(true)
 	}
 	for _, a := range []bool{false, true} {
 		for _, b := range []bool{false, true} {
